@@ -295,6 +295,84 @@ func c17CaseSnapshots(g *Gen, rounds int) {
 	g.Emit("scheck")
 }
 
+// c17DeepKeys: a "comb": a base key of 31..48 bytes and, for (almost) every nibble position i, a
+// sibling sharing the first i nibbles and differing at nibble i — a branch at every nibble, so
+// the path of the base key has 2*len+1 nodes (proofs of 63..97 elements); a few positions are
+// left out so that extensions appear and lengths around every boundary (63,64,65,66,...) occur.
+func c17DeepKeys(g *Gen) (base []byte, sibs [][]byte) {
+	n := g.Pick(31, 32, 32, 32, 33, 36, 40, 48)
+	base = make([]byte, n)
+	for i := range base {
+		base[i] = c17Byte(g)
+	}
+	skip := map[int]bool{}
+	for j := g.Pick(0, 0, 1, 2, 3); j > 0; j-- {
+		skip[g.Intn(2*n)] = true
+	}
+	for i := 0; i < 2*n; i++ {
+		if skip[i] {
+			continue
+		}
+		k := append([]byte{}, base...)
+		if i%2 == 0 {
+			k[i/2] ^= byte(1+g.Intn(15)) << 4
+		} else {
+			k[i/2] ^= byte(1 + g.Intn(15))
+		}
+		switch g.Intn(4) {
+		case 0: // keep the tail
+		case 1: // shorter sibling
+			k = k[:i/2+1]
+		default: // random tail
+			for q := i/2 + 1; q < len(k); q++ {
+				k[q] = c17Byte(g)
+			}
+		}
+		sibs = append(sibs, k)
+	}
+	return
+}
+
+func c17DeepVal(g *Gen) []byte {
+	// long enough that even a leaf with an empty remaining key is a hashed node
+	return g.Bytes(g.Pick(31, 32, 33, 33, 40, 56))
+}
+
+// deep tries: boundary sizes of depth / proof length; every API is exercised on them
+func c17CaseDeep(g *Gen) {
+	base, sibs := c17DeepKeys(g)
+	order := g.R.Perm(len(sibs))
+	if g.Intn(2) == 0 {
+		g.Emit("set %s %s", hx(base), hx(c17DeepVal(g)))
+	}
+	for _, i := range order {
+		g.Emit("set %s %s", hx(sibs[i]), hx(c17DeepVal(g)))
+	}
+	g.Emit("set %s %s", hx(base), hx(c17DeepVal(g)))
+	deepest := sibs[len(sibs)-1]
+	g.Emit("snap")
+	g.Emit("get %s", hx(base))
+	g.Emit("prove %s", hx(base))
+	g.Emit("prove %s", hx(deepest))
+	g.Emit("prove %s", hx(sibs[g.Intn(len(sibs))]))
+	g.Emit("prove %s", hx(append(append([]byte{}, base...), 0)))
+	switch g.Intn(3) {
+	case 0:
+		g.Emit("reload")
+	case 1:
+		g.Emit("flush")
+		g.Emit("clear")
+	}
+	g.Emit("filter %s", hx(base[:len(base)-1]))
+	// shrink from the deep end: merges all the way up
+	for j := len(sibs) - 1; j >= 0 && j > len(sibs)-1-g.Intn(6); j-- {
+		g.Emit("del %s", hx(sibs[j]))
+	}
+	g.Emit("prove %s", hx(base))
+	g.Emit("scheck")
+	g.Emit("root")
+}
+
 // empty values (known finding): restricted op set, no cache clearing
 func c17CaseEmpty(g *Gen, nops int) {
 	keys := c17Keys(g, g.Pick(2, 3, 5, 8))
@@ -337,6 +415,8 @@ func c17Gen(g *Gen) {
 		switch x := g.Intn(100); {
 		case x < 4:
 			c17CaseEmpty(g, nops)
+		case x < 7:
+			c17CaseDeep(g)
 		case x < 30:
 			c17CaseSnapshots(g, g.Pick(1, 2, 3, 4))
 		default:
